@@ -393,8 +393,14 @@ func (p *pConfAccess) ReadCopy() oc.Neighbor {
 }
 
 // store needs to be called under fsm.lock.Lock()
+//
+// A copy is published, not the caller's variable: callers keep using their
+// local oc.Neighbor after the call (and reassign it from ReadCopy()), which
+// must not be written into the object that lock-free readers got from
+// ReadOnly().
 func (p *pConfAccess) Update(conf *oc.Neighbor) {
-	p.conf.Store(conf)
+	c := *conf
+	p.conf.Store(&c)
 }
 
 type fsm struct {
